@@ -7,10 +7,10 @@ PROFILE = {"weights": [4, 4, 2, 1, 1, 1, 5, 2, 1, 1], "act": {"tick": 5, "connec
 def plans(tier):
     th = tier == "thorough"
     mc = [dict(cfg="A", depth=5 if th else 4, maxtime=3, alpha=["cer", "dwr", "req", "ans"], pairs=True, faults=False, maxconn=2),
-          dict(cfg="B", depth=6 if th else 5, maxtime=4, alpha=["cea", "dwr", "req", "dpa"], pairs=True, faults=True, maxconn=2)]
+          dict(cfg="B", depth=6 if th else 5, maxtime=4, alpha=["cea", "cerout", "dwr", "req", "dpa"], pairs=True, faults=True, maxconn=2)]
     if th:
         mc.append(dict(cfg="C", depth=5, maxtime=3, alpha=["cer", "cea", "req", "dwa", "dpr"], pairs=True, faults=True, maxconn=3, timeout=2400))
-    sim = [dict(cfg="B", depth=10, maxtime=8, alpha=["cea", "dwr"], num=200 if th else 40, maxconn=4),
+    sim = [dict(cfg="B", depth=10, maxtime=8, alpha=["cea", "cerout", "dwr"], num=200 if th else 40, maxconn=4),
            dict(cfg="A", depth=8, maxtime=6, alpha=["cer", "dwr", "dwa", "dpr", "dpa", "req", "ans", "ureq"], num=400 if th else 60, maxconn=3),
            dict(cfg="C", depth=10, maxtime=8, alpha=["cer", "cea", "dwr", "dwa", "dpr", "dpa", "req", "ans"], num=400 if th else 60, maxconn=4)]
     return mc, sim
@@ -20,6 +20,7 @@ def enum_plans(tier):
     th = tier == "thorough"
     # every history of the timing alphabet (ticks, connect results, one good CEA / CER): timeouts at every offset
     return [dict(cfg="B", depth=7 if th else 6, maxtime=7 if th else 6, alpha=["ceaok"], maxconn=2),
+            dict(cfg="B", depth=5, maxtime=3, alpha=["cerout", "ceaok", "dwr"], maxconn=1),   # a CER where the CEA is expected, then traffic
             dict(cfg="B", depth=5, maxtime=2, alpha=["ceaok", "send1", "sendf"], maxconn=2),       # routing before / after the exchange
             dict(cfg="A", depth=6 if th else 5, maxtime=5, alpha=["cerok"], maxconn=1)]
 
